@@ -49,6 +49,20 @@ func TestVerifC15(t *testing.T) {
 					if !cl.subscribe(f, q) {
 						c.Failf("subscribe-not-acked", "client c%d subscribe %s", i, f)
 					}
+					// a client may hold a second, overlapping subscription with the other QoS: it is eligible through
+					// whichever of its matching subscriptions has QoS >= q
+					if i == 0 && n == 2 {
+						if k := c.Choose(len(filters)+1, "second-filter0"); k > 0 && filters[k-1] != f {
+							f2, q2 := filters[k-1], 1-q
+							if !cl.subscribe(f2, q2) {
+								c.Failf("subscribe-not-acked", "client c%d subscribe %s", i, f2)
+							}
+							c.Note("c%d also subscribes %q qos%d", i, f2, q2)
+							if f2 != "x" && (f == "x" || q2 > q) {
+								f, q = f2, q2 // the subscription that makes it eligible for more
+							}
+						}
+					}
 					cl.take()
 					subs = append(subs, sub{cl, f, q})
 					c.Note("c%d subscribes %q qos%d", i, f, q)
